@@ -29,7 +29,17 @@ table = ["| seeded change | what it does | needs | result (quick tier, VERIF_SEE
          "|---|---|---|---|---|"] + rows
 n_caught = sum(1 for r in rows if "caught by" in r)
 table.append("")
-table.append("%d of %d confirmed seeded changes are caught by the quick tier of the check of their property." % (n_caught, len(rows)))
+n_other = 0
+for mp in sorted(glob.glob(os.path.join(ROOT, "seeded", "*", "meta.json"))):
+    m = json.load(open(mp))
+    own = os.path.basename(os.path.dirname(mp)).split("-")[0]
+    ch = (m.get("verified_by_lead") or {}).get("checks") or {}
+    hit = [k.split("@")[0] for k, c in ch.items() if c.get("exit") == 1]
+    if hit and own not in hit:
+        n_other += 1
+table.append("%d of %d confirmed seeded changes are caught by the quick tier (VERIF_SEED=1): %d by the check of their own property, "
+             "%d only by the check of the property whose harness looks at the changed code (`seeded/EXTRA_CHECKS.json`)."
+             % (n_caught, len(rows), n_caught - n_other, n_other))
 p = os.path.join(ROOT, "DESIGN.md")
 s = open(p).read()
 a, b = s.index("SEEDED-TABLE-BEGIN"), s.index("SEEDED-TABLE-END")
